@@ -235,6 +235,43 @@ func (e *Engine) rawForms() []rawForm {
 			}
 		}
 	}
+	// Contract files are loaded in package order, which need not be dependency order: a definition
+	// is emitted after the declarations/definitions of the symbols it uses (stable otherwise), and
+	// assertions after all of them.
+	declBy := map[string]int{}
+	for i, f := range forms {
+		if f.declare != "" {
+			declBy[f.declare] = i
+		}
+	}
+	emitted := make([]bool, len(forms))
+	var ordered []rawForm
+	for progress := true; progress; {
+		progress = false
+		for i, f := range forms {
+			if emitted[i] || f.declare == "" {
+				continue
+			}
+			ready := true
+			for _, u := range f.uses {
+				if j, ok := declBy[u]; ok && j != i && !emitted[j] {
+					ready = false
+					break
+				}
+			}
+			if ready {
+				emitted[i] = true
+				ordered = append(ordered, f)
+				progress = true
+			}
+		}
+	}
+	for i, f := range forms {
+		if !emitted[i] { // assertions, and definitions in a dependency cycle (kept in file order)
+			ordered = append(ordered, f)
+		}
+	}
+	forms = ordered
 	e.forms = forms
 	e.declared = declared
 	return forms
